@@ -252,6 +252,7 @@ def run(P: Program, R: Report, tier: str) -> None:
         "is reachable after the first state change of a user action or primitive",
         "history registration and refresh come after every sub-edit and nothing follows them",
     ]
+    R.decides += ['the data-model queries an edit consults before it has validated write nothing (effect analysis)']
     R.not_decided += [
         "exceptions outside the modelled families (numpy indexing errors, third-party callees, annotator updates)",
         "equality of state after a refusal (follows from 'nothing was changed' only for the modelled writes)",
